@@ -1,0 +1,37 @@
+//go:build verif
+
+// Copyright 2026 The Scriggo Authors. All rights reserved.
+// Use of this source code is governed by a BSD-style
+// license that can be found in the LICENSE file.
+
+package compiler
+
+import (
+	"io/fs"
+
+	"github.com/open2b/scriggo/ast"
+)
+
+// Verification hooks for property C28 (cloning a tree gives an independent
+// equal copy; walking visits every node exactly once). Compiled only with
+// the "verif" build tag. Add-only: every function calls the real parser.
+
+// VerifC28ParseProgram parses the program rooted at fsys and returns its
+// expanded tree, exactly as BuildProgram does before type checking.
+func VerifC28ParseProgram(fsys fs.FS) (*ast.Tree, error) {
+	return ParseProgram(fsys)
+}
+
+// VerifC28ParseTemplate parses the named template file rooted at fsys and
+// returns its expanded tree, exactly as BuildTemplate does before type
+// checking.
+func VerifC28ParseTemplate(fsys fs.FS, name string, noParseShow bool) (*ast.Tree, error) {
+	return ParseTemplate(fsys, name, noParseShow, nil)
+}
+
+// VerifC28ParseTemplateSource parses a template source without expanding
+// it.
+func VerifC28ParseTemplateSource(src []byte, format ast.Format, imported, noParseShow bool) (*ast.Tree, error) {
+	tree, _, err := ParseTemplateSource(src, format, imported, noParseShow)
+	return tree, err
+}
